@@ -54,6 +54,8 @@ def features(case, root):
             free = [b[1] for b, _ in n[1] if b[5] == 0]
             if len(free) != len(set(free)):
                 feats.add('linutil_repeated_beta')
+        if n[0] == 'Elem' and any(not -2**31 <= int(kk) < 2**31 for kk, _ in n[2]):
+            feats.add('elem_key_beyond_int32')
         if n[0] in ('Num', 'Lit') and isinstance(n[1], float) and 0 < abs(n[1]) < 2.2250738585072014e-308:
             feats.add('subnormal_constant')
     return feats
